@@ -11,6 +11,8 @@ use std::time::Instant;
 #[derive(Clone, Debug)]
 enum Fault {
     MissingPath,
+    /// a path that does not exist and does not end in `.circom` is named instead of the target file
+    MissingOther(usize),
     DanglingSymlink,
     InvalidUtf8,
     VersionTooNew(usize),
@@ -33,6 +35,7 @@ impl Fault {
     fn class(&self) -> String {
         match self {
             Fault::MissingPath => "missing_path".into(),
+            Fault::MissingOther(k) => format!("missing_path:{}", MISSING_NAMES[*k]),
             Fault::DanglingSymlink => "dangling_symlink".into(),
             Fault::InvalidUtf8 => "invalid_utf8".into(),
             Fault::VersionTooNew(k) => format!("version_too_new:{}", TOO_NEW[*k].join(".")),
@@ -49,7 +52,7 @@ impl Fault {
     }
     fn expected_ids(&self) -> &'static [&'static str] {
         match self {
-            Fault::MissingPath | Fault::DanglingSymlink | Fault::InvalidUtf8 => &["P1000"],
+            Fault::MissingPath | Fault::MissingOther(_) | Fault::DanglingSymlink | Fault::InvalidUtf8 => &["P1000"],
             Fault::VersionTooNew(_) | Fault::VersionTooOld(_) => &["P1003"],
             Fault::Lexical(..) | Fault::Unmatched(..) | Fault::DroppedSemicolon(..) | Fault::SecondMainSameFile => &["P1000"],
             Fault::Statement(_, _, ids) => ids,
@@ -62,17 +65,20 @@ impl Fault {
     fn located(&self) -> bool {
         !matches!(
             self,
-            Fault::MissingPath | Fault::DanglingSymlink | Fault::InvalidUtf8 | Fault::VersionTooNew(_) | Fault::VersionTooOld(_) | Fault::TwoMainsTwoFiles
+            Fault::MissingPath | Fault::MissingOther(_) | Fault::DanglingSymlink | Fault::InvalidUtf8 | Fault::VersionTooNew(_) | Fault::VersionTooOld(_) | Fault::TwoMainsTwoFiles
         )
     }
 }
+
+/// Names of paths that do not exist (none ends in `.circom`; the last lies in a directory that does not exist).
+const MISSING_NAMES: [&str; 5] = ["zzmissing", "zzmissing.txt", "zzmissing.circom.bak", "zzmissing.", "zznodir/zzfile"];
 
 /// Versions outside the supported range 2.0.0 ..= 2.1.4 (each component above / below in turn).
 const TOO_NEW: [[&str; 3]; 7] = [["2", "1", "5"], ["2", "1", "40"], ["2", "2", "0"], ["2", "10", "0"], ["3", "0", "0"], ["3", "1", "2"], ["10", "0", "4"]];
 const TOO_OLD: [[&str; 3]; 4] = [["1", "9", "9"], ["1", "0", "4"], ["0", "5", "46"], ["1", "1", "5"]];
 
 /// Faulty statements for templates: (text, expected ids).  `One`/`Two` are helper templates appended to the file.
-const TEMPLATE_STMTS: [(&str, &[&str]); 16] = [
+const TEMPLATE_STMTS: [(&str, &[&str]); 22] = [
     ("var (zq1, zq2) = (1, 2, 3);", &["TAC02"]),
     ("var zq1; var zq2; (zq1, zq2) = (1, 2, 3);", &["TAC02"]),
     ("var zq1 = 0; if ((zq1, 1)) { zq1 = 2; }", &["TAC02"]),
@@ -83,6 +89,12 @@ const TEMPLATE_STMTS: [(&str, &[&str]); 16] = [
     ("signal zs1; zs1 <== ZzNope()(1);", &["TAC01"]),
     ("signal zs1; zs1 <== ZzOne()(1, 2);", &["TAC01"]),
     ("signal zs1; zs1 <== ZzTwo()(a <== 1);", &["TAC01"]),
+    ("signal zs1; zs1 <== ZzTwo()(a <== 1, b <== 2, a <== 3);", &["TAC01"]),
+    ("signal zs1; zs1 <== ZzTwo()(c <== 3, a <== 1, b <== 2);", &["TAC01"]),
+    ("signal zs1; zs1 <== ZzTwo()(a <== 1, c <== 2);", &["TAC01"]),
+    ("signal zs1; zs1 <== ZzTwo()(1);", &["TAC01"]),
+    ("signal zs1; signal zs2; (zs1, zs2) <== ZzTwo()(1, 2);", &["TAC01", "TAC02"]),
+    ("signal (zs1, zs2, zs3) <== (1, 2);", &["TAC01", "TAC02"]),
     ("signal zs1; if (ZzOne()(1) == 1) { zs1 <== 1; }", &["TAC01"]),
     ("signal zs1; zs1 <== 1; ZzOne()(zs1) === 1;", &["TAC01"]),
     ("signal zs1; zs1 <== 1; log(ZzOne()(zs1));", &["TAC01"]),
@@ -114,7 +126,7 @@ fn apply(p: &GenProject, target: usize, fault: &Fault) -> Option<Vec<u8>> {
     let toks = &f.r.toks;
     let src = &f.r.src;
     match fault {
-        Fault::MissingPath | Fault::DanglingSymlink | Fault::TwoMainsTwoFiles => Some(src.clone().into_bytes()),
+        Fault::MissingPath | Fault::MissingOther(_) | Fault::DanglingSymlink | Fault::TwoMainsTwoFiles => Some(src.clone().into_bytes()),
         Fault::InvalidUtf8 => {
             let mut b = src.clone().into_bytes();
             let at = b.len() / 2;
@@ -265,6 +277,7 @@ fn case_in(ctx: &Ctx, p: &GenProject, t: &mut Tape, rec: &Rec, dir: &Path) -> Ve
     let f = &p.files[target];
     let ntok = f.r.toks.len();
     let mut faults: Vec<Fault> = vec![Fault::MissingPath, Fault::DanglingSymlink, Fault::InvalidUtf8];
+    faults.extend((0..MISSING_NAMES.len()).map(Fault::MissingOther));
     faults.extend((0..TOO_NEW.len()).map(Fault::VersionTooNew));
     faults.extend((0..TOO_OLD.len()).map(Fault::VersionTooOld));
     let positions: Vec<usize> = if ntok <= 40 {
@@ -313,6 +326,14 @@ fn case_in(ctx: &Ctx, p: &GenProject, t: &mut Tape, rec: &Rec, dir: &Path) -> Ve
         let mut named2: Vec<PathBuf> = p.named.iter().map(|i| fdir.join(&p.files[*i].rel)).collect();
         match fault {
             Fault::MissingPath => {}
+            Fault::MissingOther(k) => {
+                // the target is replaced on the command line by a path that does not exist
+                for n in named2.iter_mut() {
+                    if *n == tpath {
+                        *n = fdir.join(MISSING_NAMES[*k]);
+                    }
+                }
+            }
             Fault::DanglingSymlink => {
                 let _ = std::os::unix::fs::symlink(fdir.join("does-not-exist.circom"), &tpath);
             }
@@ -366,11 +387,92 @@ fn case_in(ctx: &Ctx, p: &GenProject, t: &mut Tape, rec: &Rec, dir: &Path) -> Ve
             }
         }
     }
+    // A second definition of a name of the named file, placed in a file that is only included: either
+    // the duplicate is reported as an error, or every definition of the named files is still analysed.
+    for (ni, &n) in p.named.iter().enumerate() {
+        let _ = ni;
+        let includer = &p.files[n];
+        let Some(inc) = includer.ast.includes.first() else { continue };
+        let inc_name = inc.path.trim_start_matches("./").to_string();
+        let Some(j) = p.files.iter().position(|f| f.rel == inc_name) else { continue };
+        if p.named.contains(&j) || includer.ast.defs.is_empty() {
+            continue;
+        }
+        let d = &includer.ast.defs[t.below(includer.ast.defs.len())];
+        let params = d.params.join(", ");
+        let text = if matches!(d.kind, crate::gen::ast::DefKind::Function) {
+            format!("\nfunction {}({params}) {{\n    return 1;\n}}\n", d.name)
+        } else {
+            format!("\ntemplate {}({params}) {{\n    signal input zdi;\n    signal output zdo;\n    zdo <== zdi;\n}}\n", d.name)
+        };
+        let fdir = dir.join("faulted");
+        let _ = std::fs::remove_dir_all(&fdir);
+        let _ = std::fs::create_dir_all(&fdir);
+        for (k, f) in p.files.iter().enumerate() {
+            let mut src = f.r.src.clone();
+            if k == j {
+                let at = f.ast.main.as_ref().and_then(|m| f.r.span(m.id)).map(|s| s.0).unwrap_or(src.len());
+                src.insert_str(at, &text);
+            }
+            std::fs::write(fdir.join(&f.rel), src).map_err(|e| Bad::new(format!("INFRA write: {e}")))?;
+        }
+        let named2: Vec<PathBuf> = p.named.iter().map(|i| fdir.join(&p.files[*i].rel)).collect();
+        for level in ["info", "error"] {
+            let o = RunOpts::files(&named2).verbose().level(level);
+            let b = run_bin(ctx, &o)?;
+            rec.class("fault:duplicate_definition_in_included_file");
+            rec.nontrivial(fnv(format!("{}/dupinc/{}/{level}", p.hash(), d.name).as_bytes()));
+            if crashed(&b.out) {
+                rec.class("faulted_run_crashed_skipped");
+                continue;
+            }
+            let reported = b.out.status != Some(0) && b.parsed.diags.iter().any(|x| x.severity == "error");
+            let all_analysed = p.named.iter().all(|i| {
+                p.files[*i].ast.defs.iter().all(|d| {
+                    let needle = format!("'{}'", d.name);
+                    b.parsed.log.iter().any(|l| l.starts_with("analyzing ") && l.contains(&needle))
+                })
+            });
+            if !reported && !all_analysed {
+                return Err(Bad::new(format!(
+                    "`{}` of the named file {} is also defined in the included file {}: no error is displayed (exit {:?}, `{}`) and the definitions of the named file were not all analysed",
+                    d.name,
+                    includer.rel,
+                    p.files[j].rel,
+                    b.out.status,
+                    b.parsed.summary.clone().unwrap_or_default()
+                ))
+                .sig("C02:silent:duplicate_definition_in_included_file")
+                .rendered(format!("{}\n--- added to {}\n{text}\n--- stdout\n{}", p.describe(), p.files[j].rel, b.out.stdout)));
+            }
+        }
+    }
     rec.sample(|| json!({"project": p.describe().chars().take(800).collect::<String>(), "faults": faults.iter().map(|f| f.class()).collect::<Vec<_>>()}));
     Ok(())
 }
 
 fn replay_known(ctx: &Ctx, k: &Known) -> Verdict {
+    if k.check == "analysed-or-error" {
+        // repro = one file: either an error is displayed, or every definition of the file is analysed
+        let file = PathBuf::from(&k.repro);
+        let o = RunOpts::files(&[&file]).verbose().level("info");
+        let b = run_bin(ctx, &o)?;
+        if crashed(&b.out) {
+            return Err(Bad::new(format!("{}: crashed", k.repro)).sig("C02:crash"));
+        }
+        let reported = b.out.status != Some(0) && b.parsed.diags.iter().any(|d| d.severity == "error");
+        let text = std::fs::read_to_string(&file).unwrap_or_default();
+        let names: Vec<String> = text
+            .lines()
+            .filter_map(|l| l.trim_start().strip_prefix("template ").or_else(|| l.trim_start().strip_prefix("function ")))
+            .filter_map(|rest| rest.split('(').next().map(|n| n.trim().to_string()))
+            .collect();
+        let all = names.iter().all(|n| b.parsed.log.iter().any(|l| l.starts_with("analyzing ") && l.contains(&format!("'{n}'"))));
+        if !reported && !all {
+            return Err(Bad::new(format!("{}: no error displayed and not every definition of the file analysed ({names:?})", k.repro)).sig(k.signature.clone()));
+        }
+        return Ok(());
+    }
     // repro = "<files...>" : must exit non-zero with an error-level diagnostic at --level error
     let files: Vec<PathBuf> = k.repro.split_whitespace().map(PathBuf::from).collect();
     let o = RunOpts::files(&files).verbose().level("error");
@@ -406,7 +508,7 @@ pub fn run(ctx: &Ctx) -> i32 {
     outcome.absorb(&known, fails);
     let faulted_runs: u64 = ["missing_path", "dangling_symlink", "invalid_utf8", "version_too_new", "version_too_old", "lexical_error", "unmatched_closer", "dropped_semicolon", "duplicate_parameter", "duplicate_definition", "two_mains_two_files", "second_main_same_file"]
         .iter()
-        .map(|c| stats.class_count(&format!("fault:{c}")))
+        .map(|c| stats.class_family_count(&format!("fault:{c}")))
         .sum();
     finish(
         ctx,
@@ -414,7 +516,7 @@ pub fn run(ctx: &Ctx) -> i32 {
         &outcome,
         EvidenceSpec {
             level: "fault_enumeration",
-            rule: "a generated project (1-2 files, 1-2 small definitions each, optional main component) is first run at --level error and kept only if it is clean (exit 0, `No issues found.`, every definition of every named file has its `analyzing` line — this is the converse clause). Then one fault at a time is injected into a named file and the real binary is run at --level info, warning and error: missing path, dangling symlink, invalid UTF-8 (stand-in for unreadable: the sandbox runs as root), version pragma above 2.1.4 / below 2.0.0, a character no token contains (@ # ' `) and an unmatched ) ] } before every token of files with <= 40 tokens (14 sampled positions otherwise), every `;` dropped (up to 8), an invalid tuple or anonymous component statement (16 template forms, 4 function forms incl. a non-variable assignment target) at the start of each definition body, a repeated parameter, a duplicated definition, two main components in two files / in one file. Oracle: exit status != 0 and an error-level diagnostic whose id is in the expected set for the fault class, located in the faulted file where the fault leaves a file to point into. Non-trivial = distinct (project, fault, position, level); one evaluation = one project with all its faults.",
+            rule: "a generated project (1-2 files, 1-2 small definitions each, optional main component) is first run at --level error and kept only if it is clean (exit 0, `No issues found.`, every definition of every named file has its `analyzing` line — this is the converse clause). Then one fault at a time is injected into a named file and the real binary is run at --level info, warning and error: missing path, dangling symlink, invalid UTF-8 (stand-in for unreadable: the sandbox runs as root), version pragma above 2.1.4 / below 2.0.0, a character no token contains (@ # ' `) and an unmatched ) ] } before every token of files with <= 40 tokens (14 sampled positions otherwise), every `;` dropped (up to 8), an invalid tuple or anonymous component statement (16 template forms, 4 function forms incl. a non-variable assignment target) at the start of each definition body, a repeated parameter, a duplicated definition, two main components in two files / in one file, a path that does not exist under five names that do not end in `.circom`, and a second definition of a name of the named file inside a file that is only included (there the oracle is: error displayed, or every definition of the named files still analysed). Oracle: exit status != 0 and an error-level diagnostic whose id is in the expected set for the fault class, located in the faulted file where the fault leaves a file to point into. Non-trivial = distinct (project, fault, position, level); one evaluation = one project with all its faults.",
             assumptions: vec!["message wording is not inspected; only severity, id and file".into()],
             extra: json!({"faulted_binary_runs_core_classes": faulted_runs}),
         },
